@@ -137,3 +137,65 @@ pub fn cast_sources(src: Shape, tgt: Shape) -> BoxedStrategy<Pat> {
     .boxed()
 }
 
+
+// ------------------------------------------------------------------------------------------------
+// deterministic position sweeps: every bit position of the type, enumerated (not sampled)
+// ------------------------------------------------------------------------------------------------
+
+/// 2^k + e as a W-bit pattern (wrapped)
+pub fn pow2_pat(sh: Shape, k: u32, e: i64) -> Pat {
+    Pat(Z::pow2(k as u64).add_i(e).to_le_wrapped(sh.bytes))
+}
+
+/// for every bit position k < W: the values 2^k - 1, 2^k, 2^k + 1 and their negations / complements
+/// the bit positions swept: all of them (`full`, and always for types up to 1088 bits), otherwise a
+/// sparse selection (a few hundred positions)
+pub fn positions(sh: Shape, full: bool) -> Vec<u32> {
+    let w = sh.bits();
+    let d = sh.digit_bits();
+    // sparse selection: around the boundaries of about 32 evenly spread digits (always the first
+    // two and the last two), every 61st position, and the top three positions
+    let n = w / d;
+    let stride = (n / 32).max(1);
+    (0..w)
+        .filter(|k| {
+            let digit = k / d;
+            let near_boundary = k % d == 0 || k % d == 1 || k % d == d - 1;
+            let chosen_digit = digit % stride == 0 || digit <= 1 || digit + 2 >= n;
+            full || w <= 1100 || (near_boundary && chosen_digit) || k % 61 == 0 || *k >= w - 3
+        })
+        .collect()
+}
+
+pub fn position_values(sh: Shape, full: bool) -> impl Iterator<Item = Pat> {
+    positions(sh, full).into_iter().flat_map(move |k| {
+        [-1i64, 0, 1].into_iter().flat_map(move |e| {
+            let z = Z::pow2(k as u64).add_i(e);
+            [Pat(z.to_le_wrapped(sh.bytes)), Pat(z.neg().to_le_wrapped(sh.bytes)), Pat(z.add_i(1).neg().to_le_wrapped(sh.bytes))]
+        })
+    })
+}
+
+/// operand pairs that put a carry / borrow / product edge at every bit position
+pub fn position_pairs(sh: Shape, full: bool) -> impl Iterator<Item = (Pat, Pat)> {
+    let w = sh.bits();
+    let one = Pat(Z::one().to_le_wrapped(sh.bytes));
+    let ones = Pat(Z::from_i64(-1).to_le_wrapped(sh.bytes));
+    positions(sh, full).into_iter().flat_map(move |k| {
+        let one = one.clone();
+        let ones = ones.clone();
+        let j = w - 1 - k;
+        vec![
+            (pow2_pat(sh, k, -1), one.clone()),              // (2^k - 1) + 1: carry chain of k bits
+            (pow2_pat(sh, k, 0), ones.clone()),              // 2^k + (-1): borrow chain
+            (pow2_pat(sh, k, 0), one.clone()),               // 2^k - 1
+            (pow2_pat(sh, k, 0), pow2_pat(sh, k, 0)),        // 2^k + 2^k, 2^k - 2^k, 2^k * 2^k
+            (pow2_pat(sh, k, -1), pow2_pat(sh, k, -1)),
+            (pow2_pat(sh, k, 0), pow2_pat(sh, j, 0)),        // 2^k * 2^(W-1-k) = 2^(W-1): signed edge
+            (pow2_pat(sh, k, 1), pow2_pat(sh, j, 1)),
+            (pow2_pat(sh, k, -1), pow2_pat(sh, j + 1 - (j + 1 == w) as u32, 0)),
+            (Pat(Z::pow2(k as u64).neg().to_le_wrapped(sh.bytes)), pow2_pat(sh, j, 0)),   // -2^k * 2^(W-1-k) = MIN
+            (Pat(Z::pow2(k as u64).neg().to_le_wrapped(sh.bytes)), Pat(Z::pow2(j as u64).neg().to_le_wrapped(sh.bytes))),
+        ]
+    })
+}
